@@ -223,6 +223,23 @@ def tlc_enumerate(module, cfg, var, workers=None, timeout=3600, heap="8g", env=N
     return r, vals
 
 
+def tlc_simulate(module, cfg, num, depth, seed_, timeout=600, heap="4g"):
+    """Spec -> code direction for models too large to enumerate: TLC's simulation mode writes `num` random behaviours of
+    at most `depth` steps; returns the list of behaviours (each a list of state dicts)."""
+    import tlaparse, glob
+    tmp = scratch("verif_sim_")
+    try:
+        pat = os.path.join(tmp, "tr")
+        r = run_tlc(module, cfg, workers=1, timeout=timeout, heap=heap, want_out=False,
+                    extra=["-simulate", f"file={pat},num={num}", "-depth", str(depth), "-seed", str(seed_)])
+        if r.rc not in (0,) and "Finished" not in r.stdout:
+            require_ok(r, f"simulation {module}")
+        behs = [tlaparse.parse_sim_trace(f) for f in sorted(glob.glob(pat + "*"))]
+    finally:
+        shutil.rmtree(tmp, ignore_errors=True)
+    return r, behs
+
+
 def pinpoint(module, traces, agg, cap=40, want=None):
     """For behaviours whose events are independent observations: re-judge the events of (at most `cap`) failing
     behaviours one by one, in a single batch, to name the offending event.  -> [(tid, index, fails)]"""
